@@ -70,9 +70,12 @@ def run_property(pid, repo, tier):
         raise AnalysisError(f"{pid}: only {len(ctx.obligations)} rule instances were evaluated, at least {floor} were confirmed on the reference tree "
                             f"(lbsa/obligation_floors.json) — part of the analysis did not run")
     extra = {}
-    if tier == "thorough":
+    if tier == "thorough" and not new:
+        # the variants are edits of THIS tree: on a tree that already violates the property the verdict stands and twins cannot be silent
         from . import selftest
         extra = selftest.run(pid, repo)
+    elif tier == "thorough":
+        extra = {"selftest": {"skipped": "the tree under analysis violates the property; variants of it are not meaningful", "passed": 0, "total": 0, "failed": []}}
     path, vpath = report.write_evidence(
         ctx, mod.EXPLANATION, COMMON_ASSUMPTIONS + list(getattr(mod, "ASSUMPTIONS", [])), known, new, extra=extra)
     return ctx, known, new, path, vpath, extra
@@ -132,7 +135,7 @@ def main(argv=None):
         print(f"{v['rule']} {v['site']} {v.get('function', '')}: {v['what']}"
               + (f" :: {v['detail']}" if v.get("detail") else ""))
     st = extra.get("selftest") if extra else None
-    if st and st.get("failed"):
+    if st and st.get("failed") and not new:
         print(f"ANALYSIS-ERROR property={pid} checker self-test failed: {st['failed']}")
         return 2
     print(f"{pid}: {n_ob} obligations over {len(ctx.eng._fa)} analysed functions "
